@@ -57,6 +57,14 @@ fn compress_multiple(data: &[u8], flags: u8) -> Result<Vec<u8>> {
     let has_bzip2 = (flags & flags::BZIP2) != 0;
     let has_sparse = (flags & flags::SPARSE) != 0;
 
+    // There is no IMPLODE encoder. Ignoring the bit while still writing it into the
+    // method byte produces data the decoder (which honours the bit) cannot invert.
+    if (flags & flags::IMPLODE) != 0 {
+        return Err(Error::compression(
+            "IMPLODE compression is not supported in multi-compression mode",
+        ));
+    }
+
     // We apply compressions in order: ADPCM, then others
     let mut current_data = data.to_vec();
 
